@@ -2,5 +2,5 @@
 EXTENDS BlockRefeed
 NoFix == {}
 AllFix == {"clearheld"}
-View == <<next, requested, held, out, net, provided, stray, refeeds, steps>>
+View == <<next, want, requested, held, out, net, provided, stray, refeeds, steps>>
 ====
